@@ -117,6 +117,11 @@ func runCLI(bin, work string, rnd *hx.Rand, nmods, nflags int, out string) {
 		// -go below go1.23 makes the type checker reject the (go1.26) standard library itself, which these
 		// files import; the low thresholds are reached through the module version and the file tags instead.
 		flags := append([]int{0}, pick([]int{23, 24, 25, 26}, nflags)...)
+		for i := range flags {
+			j := i + rnd.Intn(len(flags)-i)
+			flags[i], flags[j] = flags[j], flags[i]
+		}
+		flags = append(flags, flags[0]) // first value again, warm
 		for _, fl := range flags {
 			args := []string{"-checks", "SA1019,SA1015", "-f", "json"}
 			if fl != 0 {
@@ -130,7 +135,7 @@ func runCLI(bin, work string, rnd *hx.Rand, nmods, nflags int, out string) {
 			args = append(args, "./...")
 			cmd := exec.Command(bin, args...)
 			cmd.Dir = dir
-			cacheDir := filepath.Join(work, fmt.Sprintf("clicache-%d-%d", m, fl))
+			cacheDir := filepath.Join(work, fmt.Sprintf("clicache-%d", m)) // shared by all -go values of this module
 			cmd.Env = append(hx.GoEnv(), "STATICCHECK_CACHE="+cacheDir)
 			var stdout, stderr bytes.Buffer
 			cmd.Stdout, cmd.Stderr = &stdout, &stderr
@@ -183,7 +188,6 @@ func runCLI(bin, work string, rnd *hx.Rand, nmods, nflags int, out string) {
 			for _, t := range tags {
 				o.Cells = append(o.Cells, *cells[t])
 			}
-			os.RemoveAll(cacheDir)
 		}
 	}
 	hx.EmitJSON(out, o)
